@@ -23,6 +23,8 @@ ASSUMPTIONS = [
     "chains and machine orders must be acyclic; a step budget on the rebuilding loop's readiness tests (plus a 120 s alarm) turns a hang into a violation",
     "immutability: structural snapshot of the instance (jobs list identity, per-operation machines/duration/ids, name, metadata) before and "
     "after: dispatcher with all observers over a history, every named rule solver, the four graph builders (+ solved graph), "
+    "schedule round-trips: a second from_job_sequences (another schedule of the same instance object) and from_dict must leave the first "
+    "reconstruction unchanged",
     "SingleJobShopGraphEnv episode, Schedule.from_job_sequences/to_dict and the real ORToolsSolver on a concrete twin built from the path's model (representative, not for-all)",
     "padded arrays are kept exact by the numpy facade",
     "benchmarks mode: the 162 shipped instances (concrete data, enumerated) survive the JSON round trip and their aggregate views equal the definitions",
@@ -251,12 +253,23 @@ def schedules_harness(eng, sp, inst, desc):
     S.metadata = {"tag": "t", "n": [1, 2]}
     seqs = [[s.job_id for s in l] for l in S.schedule]
     try:
-        compare_schedules(eng, desc, Schedule.from_job_sequences(inst, seqs), S, "C14/from_job_sequences")
+        r1 = Schedule.from_job_sequences(inst, seqs)
+        compare_schedules(eng, desc, r1, S, "C14/from_job_sequences")
+        # a second reconstruction on the SAME instance object (another schedule: last job first, last eligible machine) must give
+        # that schedule and leave the first result as it was
+        d2 = Dispatcher(inst)
+        for job in reversed(inst.jobs):
+            for o_ in job:
+                d2.dispatch(o_, o_.machines[-1])
+        seqs2 = [[s.job_id for s in l] for l in d2.schedule.schedule]
+        compare_schedules(eng, desc, Schedule.from_job_sequences(inst, seqs2), d2.schedule, "C14/from_job_sequences/second-call")
+        compare_schedules(eng, desc, r1, S, "C14/from_job_sequences/first-result-after-second-call")
         dct = S.to_dict()
         if dct.get("job_sequences") != seqs or dct.get("metadata") != S.metadata:
             eng.fail("C14/to_dict/job_sequences-or-metadata", f"{dct.get('job_sequences')} {dct.get('metadata')}")
         back = Schedule.from_dict(**dct)
         compare_schedules(eng, desc, back, S, "C14/schedule-dict-round-trip")
+        compare_schedules(eng, desc, r1, S, "C14/from_job_sequences/first-result-after-from_dict")
         if back.metadata != S.metadata:
             eng.fail("C14/schedule-dict-round-trip/metadata-differs", f"{back.metadata}")
         same_instance(eng, desc, back.instance, inst.name, inst.metadata, "C14/schedule-dict-round-trip/instance")
